@@ -318,7 +318,7 @@ pub mod mpsc {
         pub fn send(&self, t: T) -> Result<(), SendError<T>> {
             if in_sim() {
                 // scheduling point: the send happens at this thread's virtual time
-                with_sim(|s| s.effect_point());
+                with_sim(|s| s.before_send());
                 let desc = t.seam_describe();
                 let r = self.inner.send(t);
                 let n = self.info.sent.fetch_add(1, Ordering::SeqCst);
